@@ -19,26 +19,39 @@ import storeutil  # noqa: E402
 MANIFEST = {
     "text": "Refinement theorems (induction over every add history) of the Gallina models of MemoryStore and "
             "FileSystemStore to a plain list (Spec/StoreSpec.v `refines`): get = an added object of that id with the "
-            "greatest modified, all_versions = every added version once, query = filter of one copy per (id, version) "
-            "(filesystem: including the type/id search optimiser, as a permutation); stores_agree on histories without "
-            "re-additions; the one documented difference (re-adding an existing (id, modified)); no silent loss; "
-            "save/load; every input form flattens to the sequence of its objects. Domain predicate: `clean` (modified/"
-            "created instants or absent), `uniform` (an id is always or never versioned), filesystem `fs_ok` (id prefix "
-            "= type, versioned ids UUID-shaped). The same theorems for the instance denoted by the source text "
-            "(Props/C11Src.v: translators/tr_stores.py -> Gen/StoreFacts.v, fail closed) with kernel-evaluated refutations "
-            "of every recognised alternative. Text-ordered `modified` of dictionary-kept content is a refuted variant "
-            "(known finding); naive datetimes and mixed versioned/unversioned ids are refuted outside the domain.",
+            "greatest modified, all_versions = every added version once, the population queries run over = one copy per "
+            "(id, version) added (r_stored_*); filesystem query incl. its type/id search optimiser = filter of that "
+            "population as a permutation (the memory query = filter is definitional in the model); stores_agree on "
+            "histories without re-additions; the one documented difference (re-adding an existing (id, modified)); no "
+            "silent loss; save/load (same newest version; with no re-additions the same objects: save_load_exact); every "
+            "input form flattens to the sequence of its objects. Domain predicates: `clean` (modified/created instants or "
+            "absent), `uniform` (an id is always or never versioned), filesystem `fs_ok` (id prefix = type, versioned ids "
+            "UUID-shaped). For the code as it is (text_mode TextOrder) `clean` excludes text-valued `modified`, so the "
+            "theorems cover registered-class objects and dictionary-kept content without `modified`; dictionary-kept "
+            "content with a `modified` is covered only under the repaired reading (Chrono) and is the known finding "
+            "under TextOrder (refuted by witness). Props/C11Src.v restates the refinement theorems for the instance "
+            "denoted by the source text (translators/tr_stores.py -> Gen/StoreFacts.v, fail closed; 18 sites, 14 with "
+            "recognised alternatives, 4 fixed-text sites whose obligations are one-constructor equalities whose whole "
+            "strength is the translator) and refutes by kernel-evaluated witnesses the alternatives that have a definite "
+            "semantics and violate the property: `<` and `<=` in the latest tracking, [0] instead of [-1], no overwrite "
+            "refusal, no re.I; not refuted: `>=` (still returns a newest version), KeyOther / SortOther (no semantics). "
+            "Naive datetimes and ids used with and without `modified` are refuted outside the domain.",
     "design_ref": "DESIGN.md 6/C11; design_notes/C11-C18.md",
     "note": "Trusted: Coq kernel + vm_compute (coqchk in the thorough tier); the hand-written model coq/Model/Store.v, "
             "tied to the source by (a) the per-run correspondence (same histories through the real stores and the model), "
-            "(b) the source-text translator for 18 named choices, (c) behaviour probes that must agree with the text. "
-            "Oracle-only (not theorem): nothing is claimed for content outside the domain except the refutations. "
-            "Assumed: per-object filter evaluation is an abstract boolean in Props/C11.v (made concrete in the OPTIONAL "
-            "bridge Props/C11BridgeC12.v, which imports property C12's files); the file round trip of one object "
-            "preserves the store view (OPTIONAL bridge Props/C11BridgeC01.v derives it from property C01's "
-            "roundtrip_equal_partial for the classes C01 covers; Bundle not yet); file names injective in the instant; OS "
-            "directory semantics not modelled. Optional bridges are built separately: if another builder's file or "
-            "statement changes they are reported as a note and not claimed. No axioms.",
+            "(b) the source-text translator, (c) behaviour probes that must agree with the text. The objects of the "
+            "theorems are the abstract record (id, type, modified, created, a content tag, four navigation properties): "
+            "equality of real content rests on the correspondence and on the OPTIONAL bridge Props/C11BridgeC01.v "
+            "(from property C01's roundtrip_equal_partial / roundtrip_equal_bundle_partial: an object or bundle "
+            "re-constructed from its own encoding is the same object, hence has the same store view; classes C01 does "
+            "not cover -- ObservedData, 2.1 Indicator -- and the text layer remain an assumption). Assumed: per-object "
+            "filter evaluation is an abstract boolean in Props/C11.v (concrete in the OPTIONAL bridge "
+            "Props/C11BridgeC12.v importing property C12's files); file names injective in the instant (`ts2fn_inj`): "
+            "for the real _timestamp2filename this needs the zero-padded year (C15 variant Pad4, the code since "
+            "ea5dd9c; with the unpadded year 0999-01-01T00:00:00.1Z and 9990-10-10T00:00:01Z both give 99901010000001) "
+            "and fixed-width fields -- not proved here, checked only through the correspondence; OS directory semantics "
+            "not modelled. Optional bridges are built separately: if another builder's file or statement changes they "
+            "are reported as a note and not claimed. No axioms.",
     "technique": "Coq proof over a hand-written executable model + source-text translator + per-run correspondence with the implementation",
 }
 
